@@ -83,6 +83,15 @@ theorem fact_jar_ldproof :
     Facts.C17.vcJwtSignatureErrConds = ["err != nil", "at == nil", "err != nil", "keyID != \"\" && strings.Split(keyID, \"#\")[0] != issuer"] ∧
     "crypto.ParseJWT" ∈ Facts.C17.vcJwtSignatureCalls := by decide
 
+/-- v1 authz server: validateIssuer binds the kid to `iss`; both ParseJWT call sites use the DID key resolver (introspection
+    additionally requires the key to be one of this node's own) -/
+theorem fact_authzV1 :
+    Facts.C17.authzV1ChecksKidIssuer = true ∧
+    "kidDID, err := did.ParseDIDURL(vContext.kid); err != nil || kidDID.DID.String() != vContext.requester.String()" ∈ Facts.C17.validateIssuerErrConds ∧
+    "nutsCrypto.ParseJWT" ∈ Facts.C17.parseBearerTokenCalls ∧ "s.keyResolver.ResolveKeyByID" ∈ Facts.C17.parseBearerTokenCalls ∧
+    "nutsCrypto.ParseJWT" ∈ Facts.C17.introspectCalls ∧ "s.privateKeyStore.Exists" ∈ Facts.C17.introspectCalls ∧
+    "!exists" ∈ Facts.C17.introspectErrConds := by decide
+
 /-! ### The uniform statement -/
 
 /-- the discipline of an accepted token: exactly one signature `s`, exactly one verification `v`, of that signature,
@@ -233,6 +242,29 @@ theorem accept_vcJwt (E : Env) (issuer : String) (didOf : String → String) (j 
   obtain ⟨hp, hiss⟩ := vcJwt_accept h
   obtain ⟨s, v, hs, hv, hidx, halg, hal, hasym, hov, _, hres, hver⟩ := accept_parseJWT _ j vs hp
   exact ⟨s, v, hs, hv, hidx, halg, hal, hasym, hov, hres, hver, hiss s hs⟩
+
+/-- v1 authorization server, JWT bearer grant (parseAndValidateJwtBearerToken + validateIssuer): ParseJWT's discipline
+    with the DID key resolver, `iss` is a DID, and the kid is a DID URL of exactly that DID — the verifying key is one the
+    ISSUER's DID document lists, not merely some resolvable key -/
+theorem accept_authzV1 (E : Env) (issuer : String) (ip : Bool) (didOf : String → String) (j : Jws) (vs : List Verified)
+    (h : authzV1 Facts.C17.supportedAlgs Facts.C17.authzV1ChecksKidIssuer E issuer ip didOf j = .accept vs) :
+    Disciplined Facts.C17.supportedAlgs j vs (fun s v =>
+      v.src = .resolver s.kid ∧ E.resolve s.kid = some v.key ∧ E.verifies v.key s.alg 0 = true ∧ didOf s.kid = issuer) := by
+  rw [fact_authzV1.1] at h
+  obtain ⟨hp, _, hiss⟩ := authzV1_accept h
+  obtain ⟨s, v, hs, hv, hidx, halg, hal, hasym, hov, hsrc, hres, hver⟩ := accept_parseJWT E j vs hp
+  exact ⟨s, v, hs, hv, hidx, halg, hal, hasym, hov, hsrc, hres, hver, hiss s hs⟩
+
+/-- without the kid/issuer test any resolvable party signs in the name of any requester (witness replayed on the real
+    parseAndValidateJwtBearerToken + validateIssuer: variants signed-by-attacker-own-kid, lookalike(...)) -/
+theorem authzV1_without_kid_check_accepts_foreign_key :
+    ∃ E j vs s, authzV1 Facts.C17.supportedAlgs false E "did:nuts:victim" true (fun k => (k.splitOn "#").headD "") j = .accept vs ∧
+      j.sigs = [s] ∧ s.kid = "did:nuts:mallory#k" := by
+  refine ⟨{ resolve := fun _ => some "Km", embeddedKey := fun _ => none, verifies := fun _ _ _ => true, verifiesSplit := fun _ _ _ => false },
+    { parses := true, splitOK := true, sigs := [{ alg := "ES256", kid := "did:nuts:mallory#k", jwk := .absent, hdrs := [], typ := "JWT" }] },
+    [{ key := "Km", src := .resolver "did:nuts:mallory#k", alg := "ES256", idx := 0, overSigningInput := true }],
+    { alg := "ES256", kid := "did:nuts:mallory#k", jwk := .absent, hdrs := [], typ := "JWT" }, ?_, rfl, rfl⟩
+  decide
 
 /-- LDProof.Verify: one verification with the caller's key; the algorithm is the one derived from that key (so it
     fits the key and, by the regenerated list of constants `SignatureAlgorithm` can return, is asymmetric); the
